@@ -133,6 +133,29 @@ def oracle(ctx):
             cmp("limits-%s:d2ab" % name, g2[1], gr2[1], 1e-8)
         except Exception as e:
             ctx.fail("oracle", "quadgrad:limits-%s:exception" % name, {}, repr(e)[:300], "differentiation works for every accepted form of the limits")
+    # Leibniz rule for ONE differentiable limit, the other one a number or a tensor without grad (round-4 seed C13/10: the boundary
+    # term of xu guarded by the flag of xl)
+    for name, lo_f, hi_f in (("xu-tensor:xl-number", lambda: 0.25, lambda: torch.tensor(1.5, dtype=DT, requires_grad=True)),
+                             ("xu-tensor:xl-nograd", lambda: torch.tensor(0.25, dtype=DT), lambda: torch.tensor(1.5, dtype=DT, requires_grad=True)),
+                             ("xl-tensor:xu-number", lambda: torch.tensor(0.25, dtype=DT, requires_grad=True), lambda: 1.5),
+                             ("xl-tensor:xu-nograd", lambda: torch.tensor(0.25, dtype=DT, requires_grad=True), lambda: torch.tensor(1.5, dtype=DT))):
+        try:
+            lo_, hi_ = lo_f(), hi_f()
+            v = quad(f, lo_, hi_, params=(a, b), n=30)
+            lim = hi_ if name.startswith("xu") else lo_
+            sign = 1.0 if name.startswith("xu") else -1.0
+            gl, = torch.autograd.grad(v, lim, create_graph=True, allow_unused=True)
+            cmp("one-limit:%s:first" % name, gl, sign * f(lim, a, b).detach(), 1e-12)
+            if gl is not None and gl.requires_grad:
+                g2 = torch.autograd.grad(gl, (lim, a), allow_unused=True)
+                limd = lim.detach().clone().requires_grad_()
+                r2 = torch.autograd.grad(sign * f(limd, a, b), (limd, a))
+                cmp("one-limit:%s:second:limit" % name, g2[0], r2[0], 1e-10)
+                cmp("one-limit:%s:second:a" % name, g2[1], r2[1], 1e-10)
+            else:
+                ctx.fail("oracle", "quadgrad:one-limit:%s:second-order-graph-missing" % name, {}, None, "a differentiable boundary term")
+        except Exception as e:
+            ctx.fail("oracle", "quadgrad:one-limit:%s:exception" % name, {}, repr(e)[:300], "Leibniz rule")
     # only the limits are differentiable: no parameter, a parameter without grad, a python number (finding F34: the slicing
     # of the saved tensors with -0 handed the limits over as parameters and the backward raised)
     for name, prm, fac in (("no-params", (), 1.0), ("tensor-nograd-param", (torch.tensor(2.0, dtype=DT),), 2.0), ("number-param", (2.0,), 2.0)):
